@@ -143,13 +143,25 @@ func closureFns(f *ssa.Function) []*ssa.Function { return f.AnonFuncs }
 // fnOfValue resolves a function-typed value to a function when it is a
 // closure, a named function or a bound method.
 func fnOfValue(v ssa.Value) *ssa.Function {
+	unbound := func(f *ssa.Function) *ssa.Function {
+		// a method value (x.m used as a function) is a synthetic $bound
+		// wrapper around the method: the method is what matters
+		if f.Synthetic != "" && strings.HasSuffix(f.Name(), "$bound") {
+			for _, ci := range callsIn(f) {
+				if cal := ci.Common().StaticCallee(); cal != nil {
+					return cal
+				}
+			}
+		}
+		return f
+	}
 	switch x := strip(v).(type) {
 	case *ssa.MakeClosure:
 		if f, ok := x.Fn.(*ssa.Function); ok {
-			return f
+			return unbound(f)
 		}
 	case *ssa.Function:
-		return x
+		return unbound(x)
 	}
 	return nil
 }
